@@ -10,6 +10,7 @@
 #include <time.h>
 #include <fcntl.h>
 #include <poll.h>
+#include <sys/resource.h>
 
 struct globals G;
 
@@ -248,7 +249,7 @@ static void parse_case(char *text)
             G.mask = (unsigned)kv(line, "mask", 7);
             G.pct_d = (int)kv(line, "d", 2);
             G.pct_len = (uint64_t)kv(line, "pctlen", 20000);
-            G.step_limit = (uint64_t)kv(line, "steplimit", 3000000);
+            G.step_limit = (uint64_t)kv(line, "steplimit", 600000);
             G.native = (int)kv(line, "native", 0);
             G.want_hist = (int)kv(line, "hist", 0);
             G.spin = (unsigned)kv(line, "spin", 40);
@@ -482,9 +483,16 @@ int main(int argc, char **argv)
             clock_gettime(CLOCK_MONOTONIC, &t1);
             long ms = (t1.tv_sec - t0.tv_sec) * 1000 + (t1.tv_nsec - t0.tv_nsec) / 1000000;
             if (ms > wall_ms) {
+                struct rusage ru;
                 kill(pid, SIGKILL);
-                waitpid(pid, &status, 0);
-                timedout = 1;
+                wait4(pid, &status, 0, &ru);
+                double cpu = ru.ru_utime.tv_sec + ru.ru_utime.tv_usec / 1e6 +
+                             ru.ru_stime.tv_sec + ru.ru_stime.tv_usec / 1e6;
+                /* the child had the CPU for most of the budget and still did not
+                 * finish a case that normally takes milliseconds: a loop without
+                 * scheduling points (e.g. a cyclic list).  Otherwise the machine
+                 * was busy: inconclusive. */
+                timedout = (cpu * 1000.0 > 0.6 * wall_ms) ? 2 : 1;
                 break;
             }
         }
@@ -496,7 +504,10 @@ int main(int argc, char **argv)
         const char *verdict = "ok";
         int code = WIFEXITED(status) ? WEXITSTATUS(status) : -1;
         int sig = WIFSIGNALED(status) ? WTERMSIG(status) : 0;
-        if (timedout)
+        if (timedout == 2) {
+            verdict = "hang";
+            printf("H cpuloop no scheduling point reached within the CPU budget\n");
+        } else if (timedout)
             verdict = "timeout";
         else if (sig == SIGABRT)
             verdict = "abort";
